@@ -94,7 +94,7 @@ def rule_r1(ctx) -> List[R.Inst]:
 def rule_r2(ctx) -> List[R.Inst]:
     M = ctx.M
     rid = "C19.R2"
-    fn = M.fn(SPEED)
+    fn = M.nfn(SPEED)
     file = M.mods[fn.mod].rel
     insts = []
     # speed formula
@@ -175,7 +175,7 @@ def rule_r2(ctx) -> List[R.Inst]:
             insts.append(R.viol(rid, "sv-precedence", file, sv_concat.lineno, "; ".join(why) or "SV precedence not as defined",
                                 construct="; ".join(why)))
     # both frames are sorted by offset before the fills, and merged on offset
-    sites = O.analyse_function(ctx, SPEED)
+    sites = O.analyse_function(ctx, SPEED, normal=True)
     if isinstance(sites, Exception):
         raise AnalysisError(f"order analysis failed: {sites}")
     fills = [s for s in sites if s.kind == "reduction" and s.what in ("ffill", "bfill", "diff", "shift")]
